@@ -104,6 +104,30 @@ def unx(s):
     return bytes.fromhex(s[1:])
 
 
+def as_api_arg(b):
+    """the API accepts `str` as well as `bytes` and encodes it itself: hand over text for about half of the
+    arguments that are valid UTF-8 (chosen by a hash of the value, so both back-ends and replays agree)"""
+    if STR_ARGS and fnv(b) % 2 == 0:
+        try:
+            t = b.decode("utf-8")
+            if t.encode("utf-8") == b:
+                return t
+        except UnicodeDecodeError:
+            pass
+    return b
+
+
+def unx_arg(s):
+    return as_api_arg(unx(s))
+
+
+def unx_arg_list(s):
+    return [as_api_arg(unx(x)) for x in split_list(s)]
+
+
+STR_ARGS = os.environ.get("VERIF_STR_ARGS", "1") == "1"
+
+
 def split_list(s):
     inner = s[1:-1]
     return inner.split(",") if inner else []
@@ -244,43 +268,43 @@ class Impl(object):
             t.clear(d, rs)
             return "ok"
         if op == "addrule":
-            return render_report(t.add_webentity_creation_rule(unx(w[1]), RULES[w[2]]))
+            return render_report(t.add_webentity_creation_rule(unx_arg(w[1]), RULES[w[2]]))
         if op == "rmrule":
-            t.remove_webentity_creation_rule(unx(w[1]))
+            t.remove_webentity_creation_rule(unx_arg(w[1]))
             return "ok"
         if op == "create":
-            return render_report(t.create_webentity(unx_list(w[1])))
+            return render_report(t.create_webentity(unx_arg_list(w[1])))
         if op == "delete":
-            t.delete_webentity(int(w[1]), unx_list(w[2]))
+            t.delete_webentity(int(w[1]), unx_arg_list(w[2]))
             return "ok"
         if op == "addprefix":
-            t.add_prefix_to_webentity(unx(w[1]), int(w[2]))
+            t.add_prefix_to_webentity(unx_arg(w[1]), int(w[2]))
             return "ok"
         if op == "rmprefix":
             if w[2] == "-":
-                t.remove_prefix_from_webentity(unx(w[1]))
+                t.remove_prefix_from_webentity(unx_arg(w[1]))
             else:
-                t.remove_prefix_from_webentity(unx(w[1]), int(w[2]))
+                t.remove_prefix_from_webentity(unx_arg(w[1]), int(w[2]))
             return "ok"
         if op == "moveprefix":
             if w[3] == "-":
-                t.move_prefix_to_webentity(unx(w[1]), int(w[2]))
+                t.move_prefix_to_webentity(unx_arg(w[1]), int(w[2]))
             else:
-                t.move_prefix_to_webentity(unx(w[1]), int(w[2]), int(w[3]))
+                t.move_prefix_to_webentity(unx_arg(w[1]), int(w[2]), int(w[3]))
             return "ok"
         if op == "addpage":
-            return render_report(t.add_page(unx(w[1]), crawled=(w[2] == "1")))
+            return render_report(t.add_page(unx_arg(w[1]), crawled=(w[2] == "1")))
         if op == "addpages":
-            return render_report(t.add_pages(unx_list(w[1]), crawled=(w[2] == "1")))
+            return render_report(t.add_pages(unx_arg_list(w[1]), crawled=(w[2] == "1")))
         if op == "addlinks":
-            links = [tuple(unx(x) for x in st.split(">")) for st in split_list(w[1])]
+            links = [tuple(unx_arg(x) for x in st.split(">")) for st in split_list(w[1])]
             return render_report(t.add_links(links))
         if op == "batch":
             data = {}
             if w[1] != "-":
                 for e in w[1].split(";"):
                     a, ts = e.split(">")
-                    data[unx(a)] = [unx(x) for x in ts.split(",")] if ts else []
+                    data[unx(a)] = [unx_arg(x) for x in ts.split(",")] if ts else []
             return render_report(t.index_batch_crawl(data))
         if op == "?":
             return self._query(w[1:])
@@ -315,9 +339,9 @@ class Impl(object):
                         data[unx(a)] = [unx(x) for x in ts.split(",")] if ts else []
                 g, render = t.index_batch_crawl_iter(data, 1), render_report
             elif kind == "rule":
-                g, render = t.add_webentity_creation_rule_iter(unx(args[0]), RULES[args[1]]), render_report
+                g, render = t.add_webentity_creation_rule_iter(unx_arg(args[0]), RULES[args[1]]), render_report
             elif kind == "pages":
-                g = t.get_webentity_pages_iter(int(args[0]), unx_list(args[1]))
+                g = t.get_webentity_pages_iter(int(args[0]), unx_arg_list(args[1]))
                 render = lambda r: "ok " + brack([hx(p["lru"]) + ":" + b01(p["crawled"]) for p in r])  # noqa
             elif kind == "net":
                 g = t.get_webentities_links_iter(out=(args[0] == "1"), include_auto=(args[1] == "1"))
@@ -399,61 +423,61 @@ class Impl(object):
         t = self.t
         q = w[0]
         if q == "retrieveprefix":
-            return "ok " + hx(t.retrieve_prefix(unx(w[1])))
+            return "ok " + hx(t.retrieve_prefix(unx_arg(w[1])))
         if q == "potential":
-            r = t.get_potential_prefix(unx(w[1]))
+            r = t.get_potential_prefix(unx_arg(w[1]))
             return "ok false" if r is False else "ok " + hx(r)
         if q == "retrievewe":
-            return "ok %d" % t.retrieve_webentity(unx(w[1]))
+            return "ok %d" % t.retrieve_webentity(unx_arg(w[1]))
         if q == "webyprefix":
-            return "ok %d" % t.get_webentity_by_prefix(unx(w[1]))
+            return "ok %d" % t.get_webentity_by_prefix(unx_arg(w[1]))
         if q == "pages":
-            r = t.get_webentity_pages(int(w[1]), unx_list(w[2]))
+            r = t.get_webentity_pages(int(w[1]), unx_arg_list(w[2]))
             return "ok " + brack([hx(p["lru"]) + ":" + b01(p["crawled"]) for p in r])
         if q == "crawledpages":
-            r = t.get_webentity_crawled_pages(int(w[1]), unx_list(w[2]))
+            r = t.get_webentity_crawled_pages(int(w[1]), unx_arg_list(w[2]))
             return "ok " + brack([hx(p["lru"]) + ":" + b01(p["crawled"]) for p in r])
         if q == "paginate":
-            r = t.paginate_webentity_pages(int(w[1]), unx_list(w[2]), page_count=opt_nat(w[3]),
+            r = t.paginate_webentity_pages(int(w[1]), unx_arg_list(w[2]), page_count=opt_nat(w[3]),
                                            pagination_token=None if w[4] == "-" else w[4], crawled_only=(w[5] == "1"))
             return "ok done=%s count=%d crawled=%d pages=%s token=%s" % (
                 b01(r["done"]), r["count"], r["count_crawled"],
                 brack([hx(p["lru"]) + ":" + b01(p["crawled"]) for p in r["pages"]]), r.get("token", "-"))
         if q == "mostlinked":
-            r = t.get_webentity_most_linked_pages(int(w[1]), unx_list(w[2]), pages_count=int(w[3]),
+            r = t.get_webentity_most_linked_pages(int(w[1]), unx_arg_list(w[2]), pages_count=int(w[3]),
                                                   max_depth=opt_nat(w[4]))
             return "ok " + brack(["%s:%d" % (hx(p["lru"]), p["indegree"]) for p in r])
         if q == "parents":
-            return "ok " + brack([str(x) for x in sorted(t.get_webentity_parent_webentities(int(w[1]), unx_list(w[2])))])
+            return "ok " + brack([str(x) for x in sorted(t.get_webentity_parent_webentities(int(w[1]), unx_arg_list(w[2])))])
         if q == "children":
-            return "ok " + brack([str(x) for x in sorted(t.get_webentity_child_webentities(int(w[1]), unx_list(w[2])))])
+            return "ok " + brack([str(x) for x in sorted(t.get_webentity_child_webentities(int(w[1]), unx_arg_list(w[2])))])
         if q == "pagelinks":
-            r = t.get_webentity_pagelinks(int(w[1]), unx_list(w[2]), include_inbound=(w[3] == "1"),
+            r = t.get_webentity_pagelinks(int(w[1]), unx_arg_list(w[2]), include_inbound=(w[3] == "1"),
                                           include_internal=(w[4] == "1"), include_outbound=(w[5] == "1"))
             return "ok " + render_links(r)
         if q == "paginatelinks":
-            r = t.paginate_webentity_pagelinks(int(w[1]), unx_list(w[2]), include_internal=(w[3] == "1"),
+            r = t.paginate_webentity_pagelinks(int(w[1]), unx_arg_list(w[2]), include_internal=(w[3] == "1"),
                                                include_outbound=(w[4] == "1"), source_page_count=opt_nat(w[5]),
                                                pagination_token=None if w[6] == "-" else w[6])
             return "ok done=%s sources=%d links=%s token=%s" % (
                 b01(r["done"]), r["count_sourcepages"], render_links(r["pagelinks"]), r.get("token", "-"))
         if q in ("weout", "wein"):
             f = t.get_webentity_outlinks if q == "weout" else t.get_webentity_inlinks
-            r = f(int(w[1]), unx_list(w[2]))
+            r = f(int(w[1]), unx_arg_list(w[2]))
             return "ok " + brack([str(x) for x in sorted(0 if x is None else x for x in r)])
         if q == "pagelinksof":
-            r = t.get_page_links(unx(w[1]), include_inbound=(w[2] == "1"), include_internal=(w[3] == "1"),
+            r = t.get_page_links(unx_arg(w[1]), include_inbound=(w[2] == "1"), include_internal=(w[3] == "1"),
                                  include_outbound=(w[4] == "1"))
             return "ok " + render_links(r)
         if q == "pagedeg":
             f = {"in": t.get_page_indegree, "out": t.get_page_outdegree, "deg": t.get_page_degree}[w[2]]
-            return "ok %d" % f(unx(w[1]), weighted=(w[3] == "1"))
+            return "ok %d" % f(unx_arg(w[1]), weighted=(w[3] == "1"))
         if q == "network":
             out, auto, slow = w[1] == "1", w[2] == "1", w[3] == "1"
             g = (t.get_webentities_links_slow if slow else t.get_webentities_links)(out=out, include_auto=auto)
             return render_graph(g)
         if q == "expand":
-            return "ok " + brack([hx(x) for x in t.expand_prefix(unx(w[1]))])
+            return "ok " + brack([hx(x) for x in t.expand_prefix(unx_arg(w[1]))])
         if q == "variations":
             return "ok " + brack([hx(x) for x in H.lru_variations(unx(w[1]))])
         if q == "linksiter":
